@@ -98,10 +98,24 @@ func (t *formatFMP4Track) write(sample *formatFMP4Sample) error {
 	}
 
 	if t.f.currentSegment == nil {
+		// start first segment from the oldest pending video sample,
+		// in order to avoid discarding the first random access sample.
+		startDTS := dts
+		startNTP := sample.ntp
+		for _, track := range t.f.tracks {
+			if track != t && track.nextSample != nil && track.initTrack.Codec.IsVideo() {
+				otherDTS := timestampToDuration(track.nextSample.dts, int(track.initTrack.TimeScale))
+				if otherDTS < startDTS && (dts-otherDTS) <= maxBasetime {
+					startDTS = otherDTS
+					startNTP = track.nextSample.ntp
+				}
+			}
+		}
+
 		t.f.currentSegment = &formatFMP4Segment{
 			f:        t.f,
-			startDTS: dts,
-			startNTP: sample.ntp,
+			startDTS: startDTS,
+			startNTP: startNTP,
 			number:   t.f.nextSegmentNumber,
 		}
 		t.f.currentSegment.initialize()
